@@ -9,6 +9,7 @@
 #include <linux/futex.h>
 #include <pthread.h>
 #include <stdio.h>
+#include <stdlib.h>
 #include <string.h>
 #include <sys/syscall.h>
 #include <unistd.h>
@@ -113,6 +114,9 @@ static void switch_to(int n) {
     if (T[me].st != ST_FIN) fwait(&T[me].sem);
 }
 
+static int g_trace = -1;
+static FILE * g_tracef;
+static int g_lastkind;
 static int take_choice(int k, int kind, int ce) {
     long idx = nchoices++;
     if (idx >= VS_MAXCH) {
@@ -182,6 +186,12 @@ static void choose() {
     }
     int pick = 0;
     if (k > 1) pick = take_choice(k, 0, ce ? 1 : 0);
+    if (g_trace > 0 && k > 1) {
+        fprintf(g_tracef, "choice %ld: t%d kind %d enabled:", nchoices - 1, cur, g_lastkind);
+        for (int i = 0; i < k; i++) fprintf(g_tracef, " t%d", en[i]);
+        fprintf(g_tracef, " -> t%d\n", en[pick]);
+        fflush(g_tracef);
+    }
     switch_to(en[pick]);
 }
 
@@ -194,6 +204,7 @@ static void count_point(int kind, const void *obj) {
         fatal(VS_F_LIVELOCK, msg);
     }
     trace(kind, obj);
+    g_lastkind = kind;
     if (cfg.on_point) {
         /* the hook may read substituted atomics: no scheduling points inside it */
         T[cur].suppress++;
@@ -377,6 +388,12 @@ extern "C" void vs_suppress(int on) { T[cur].suppress += on ? 1 : -1; }
 
 extern "C" void vs_begin(const vs_dev_t *d, int n, const vs_config_t *c) {
     if (c) cfg = *c;
+    if (g_trace < 0) {
+        const char * tf = getenv("VS_TRACE");   /* debugging aid: file that receives one line per choice point */
+        g_tracef = tf ? fopen(tf, "a") : 0;
+        g_trace = g_tracef ? 1 : 0;
+    }
+    if (g_trace > 0) { fprintf(g_tracef, "--- execution\n"); }
     devs = d;
     ndev = n;
     nextdev = 0;
